@@ -179,13 +179,17 @@ func runC17(r *Result, thorough bool) {
 		srounds = 12
 	}
 	for ri := 0; ri < srounds; ri++ {
+		// every other round: the peers list (peers.json) is larger than the validator set, as on a
+		// node whose peers file is ahead of its hashgraph; the limit counts validators
+		realNodeExtraPeers = (ri % 2) * (1 + rng.Intn(2))
 		nodes := newRealNodes(rng, 3+rng.Intn(3), 1000)
+		realNodeExtraPeers = 0
 		t := nodes[0]
 		vc := t.n.VerifCore()
 		limit := t.n.VerifSuspendLimit()
 		suspendedAt := -1
 		// no quorum: the node keeps creating events nobody else references
-		for k := 0; k < limit*len(nodes)+8; k++ {
+		for k := 0; k < limit*(len(nodes)+2)+8; k++ {
 			t.n.VerifAddTransaction([]byte(fmt.Sprintf("m%d", k)))
 			vc.AddSelfEvent("")
 			undet := len(vc.Hashgraph().UndeterminedEvents)
